@@ -85,8 +85,8 @@ Definition check_case (c : case) : bool :=
     here marks a pair (dt, target) whose floating-point quotient lands next to an integer. *)
 Definition exact_len (c : kcase) (k : fac) : Z :=
   match k_fn c with
-  | 2%nat => new_npts_rs (k_even c) (fac_val (T:=Q) k) (Z.to_nat (k_n c))
-  | _ => new_npts (k_even c) (fac_val (T:=Q) k) (Z.to_nat (k_n c))
+  | 2%nat => new_npts_rs (T:=Q) (k_even c) k (Z.to_nat (k_n c))
+  | _ => new_npts (T:=Q) (k_even c) k (Z.to_nat (k_n c))
   end.
 Definition exact_agrees (c : kcase) : bool :=
   let k := factor_kind (T:=Q) (fQ (b64_bits (k_dt c))) (fQ (b64_bits (k_tg c))) in
